@@ -67,6 +67,14 @@ def run_corr(case):
         dd = np.asarray(cf.dd.counts.get_array()).sum(axis=0)
         off = dd - np.diag(np.diag(dd))
         ck.nontrivial = bool(P >= 3 and (off.sum(axis=0) + off.sum(axis=1) > 0).any())
+        # bins whose leave-one-out denominator is zero in exact arithmetic carry only rounding
+        # residues (~1e-16, from differencing cumulative weighted counts and from the
+        # subtract-from-total shortcut): the estimator is undefined there and not judged
+        den_member = cf.rr if cf.rr is not None else (cf.rd if cf.rd is not None and cf.dr is None else cf.dr)
+        with np.errstate(all="ignore"):
+            den = den_member.sample_patch_sum()
+        floor = 1e-9 * max(float(np.nanmax(np.abs(den.data))), float(np.nanmax(np.abs(den.samples))), 1e-300)
+        judged_k = np.abs(den.samples) > floor
         recomputed = []
         for k in range(P):
             red_cats = [_without(c, s.patch != k) for c, s in zip(cats, samples)]
@@ -81,10 +89,10 @@ def run_corr(case):
         for k in range(min(P, full.samples.shape[0])):
             got = np.asarray(full.samples[k], float)
             exp = recomputed[k]
-            fin = np.isfinite(exp) & np.isfinite(got)
+            fin = np.isfinite(exp) & np.isfinite(got) & judged_k[k]
             same_nonfinite = np.array_equal(np.isfinite(exp), np.isfinite(got))
             if not (np.allclose(got[fin], exp[fin], rtol=1e-9, atol=1e-12)):
-                which = [j for j in range(P) if np.allclose(got[fin], recomputed[j][fin], rtol=1e-9, atol=1e-12)]
+                which = [j for j in range(P) if np.allclose(got[fin & judged_k[j]], recomputed[j][fin & judged_k[j]], rtol=1e-9, atol=1e-12)]
                 ck.fail("e2e:corr-sample:" + ("permuted" if which else "wrong-value"), f"sample {k}: {got} vs recomputed {exp}; equals leave-out of {which}")
                 break
             if not same_nonfinite:
